@@ -878,3 +878,100 @@ def check_clip_paths(prog, res, fn, flag='clip_inputs', rule='X5',
               'int32 cast that overflows)' % (
                   norm_text(early[0])[:60] if early else '', subject))
   return n_paths[0]
+
+
+# ---------------------------------------------------------------------------
+# X5c - nothing that is used later is computed from a value before its clip
+def check_self_clip_order(prog, res, fns, rule='X5'):
+  """`x = tf.minimum(x, hi)` (also maximum / clip_by_value with x as the
+  clipped operand) states that from here on x is within its bound.  A value
+  `y` that is computed from x in the same block BEFORE that statement and
+  read AFTER it was computed from the unclipped x: the head-room, sum or
+  factor derived from it does not belong to the x that the rest of the code
+  goes on with (`delta = output_max - bias` before `bias = minimum(bias,
+  output_max)` is negative for a bias above the bound).  Block-local, in
+  statement order; shape / dtype reads do not count; a y that is re-computed
+  after the clip is fine."""
+  clips = ('tf.minimum', 'tf.maximum', 'tf.clip_by_value')
+  n = 0
+
+  def self_clip(fn, st):
+    if isinstance(st, ast.Assign) and len(st.targets) == 1 and isinstance(
+        st.targets[0], ast.Name) and isinstance(st.value, ast.Call) and (
+            prog.ext_name(fn.module, st.value.func) or '') in clips and \
+        st.value.args and isinstance(st.value.args[0], ast.Name) and \
+        st.value.args[0].id == st.targets[0].id:
+      return st.targets[0].id
+    return None
+
+  def reads(expr, name):
+    meta = set()
+    for m in ast.walk(expr):
+      if isinstance(m, ast.Attribute) and m.attr in ('shape', 'dtype'):
+        meta.update(id(x) for x in ast.walk(m))
+      if isinstance(m, ast.Call) and dotted(m.func) in (
+          'len', 'isinstance', 'tf.shape', 'tf.rank', 'type',
+          'tf.ones_like', 'tf.zeros_like'):
+        meta.update(id(x) for x in ast.walk(m))
+    return any(isinstance(m, ast.Name) and m.id == name and isinstance(
+        m.ctx, ast.Load) and id(m) not in meta for m in ast.walk(expr))
+
+  for fn in fns:
+    for owner in ast.walk(fn.node):
+      for f in ('body', 'orelse', 'finalbody'):
+        block = getattr(owner, f, None)
+        if not (isinstance(block, list) and block and isinstance(
+            block[0], ast.stmt)):
+          continue
+        for j, st in enumerate(block):
+          x = self_clip(fn, st)
+          if x is None:
+            continue
+          n += 1
+          # statements of this block since the last assignment of x
+          start = 0
+          for i in range(j - 1, -1, -1):
+            if any(isinstance(t, ast.Name) and t.id == x and isinstance(
+                t.ctx, ast.Store) for t in ast.walk(block[i])):
+              start = i + 1
+              break
+          bad = None
+          tainted = {}        # name -> defining statement (derived from x)
+          for i in range(start, j):
+            d = block[i]
+            if not (isinstance(d, ast.Assign) and len(d.targets) == 1 and
+                    isinstance(d.targets[0], ast.Name)):
+              continue
+            y = d.targets[0].id
+            if y == x:
+              continue
+            if reads(d.value, x) or any(reads(d.value, t) for t in tainted):
+              tainted[y] = d
+            else:
+              tainted.pop(y, None)
+          live = dict(tainted)
+          for k in range(j + 1, len(block)):
+            s2 = block[k]
+            hit = [t for t in live if any(
+                isinstance(m, ast.Name) and m.id == t and isinstance(
+                    m.ctx, ast.Load) for m in ast.walk(s2))]
+            if hit:
+              bad = (hit[0], live[hit[0]])
+              break
+            for m in ast.walk(s2):
+              if isinstance(m, ast.Name) and isinstance(m.ctx, ast.Store):
+                live.pop(m.id, None)
+            if not live:
+              break
+          key = '%s|%s clipped at +%d' % (fn.qualname, x,
+                                          st.lineno - fn.node.lineno)
+          res.check(bad is None, rule, '%s|self-clip:%s#%d' % (
+              fn.qualname, x, sum(1 for b in block[:j] if self_clip(fn, b)
+                                  == x)), fn.loc(st),
+                    'nothing used later is computed from `%s` before this '
+                    'clip' % x,
+                    '`%s` is computed from `%s` before `%s` clips it and is '
+                    'used afterwards: it was derived from the unclipped '
+                    'value' % (bad[0] if bad else '', x,
+                               norm_text(st)[:50]))
+  return n
